@@ -699,6 +699,8 @@ func (f *formatter) StmtLabel(n *ast.StmtLabel) {
 }
 
 func (f *formatter) StmtNamespace(n *ast.StmtNamespace) {
+	bracketed := n.OpenCurlyBracketTkn != nil || len(n.Stmts) > 0
+
 	n.OpenCurlyBracketTkn = nil
 	n.CloseCurlyBracketTkn = nil
 	n.SemiColonTkn = nil
@@ -710,7 +712,7 @@ func (f *formatter) StmtNamespace(n *ast.StmtNamespace) {
 		n.Name.Accept(f)
 	}
 
-	if len(n.Stmts) > 0 {
+	if bracketed {
 		f.addFreeFloating(token.T_WHITESPACE, []byte(" "))
 		n.OpenCurlyBracketTkn = f.newToken('{', []byte("{"))
 		if len(n.Stmts) > 0 {
